@@ -30,7 +30,7 @@
 // current episode (sizeof(TableNode), the table buffer sizes) are tracked, in a
 // lock-free pointer table with relaxed atomics (no mutex, so no happens-before
 // edge is added between the threads under test).
-namespace acct {
+namespace vfacct {
 constexpr int kSlots = 1 << 13;
 constexpr int kSizes = 40;
 struct Watch {
@@ -123,44 +123,44 @@ inline uint64_t frees_of(size_t sz) {
     if (g.sizes[i].load(std::memory_order_relaxed) == sz) return g.frees[i].load(std::memory_order_relaxed);
   return 0;
 }
-}  // namespace acct
+}  // namespace vfacct
 
 void* operator new(size_t sz) {
-  void* p = acct::alloc(sz, 0);
+  void* p = vfacct::alloc(sz, 0);
   if (!p) throw std::bad_alloc();
   return p;
 }
 void* operator new[](size_t sz) {
-  void* p = acct::alloc(sz, 0);
+  void* p = vfacct::alloc(sz, 0);
   if (!p) throw std::bad_alloc();
   return p;
 }
-void* operator new(size_t sz, const std::nothrow_t&) noexcept { return acct::alloc(sz, 0); }
-void* operator new[](size_t sz, const std::nothrow_t&) noexcept { return acct::alloc(sz, 0); }
+void* operator new(size_t sz, const std::nothrow_t&) noexcept { return vfacct::alloc(sz, 0); }
+void* operator new[](size_t sz, const std::nothrow_t&) noexcept { return vfacct::alloc(sz, 0); }
 void* operator new(size_t sz, std::align_val_t al) {
-  void* p = acct::alloc(sz, size_t(al));
+  void* p = vfacct::alloc(sz, size_t(al));
   if (!p) throw std::bad_alloc();
   return p;
 }
 void* operator new[](size_t sz, std::align_val_t al) {
-  void* p = acct::alloc(sz, size_t(al));
+  void* p = vfacct::alloc(sz, size_t(al));
   if (!p) throw std::bad_alloc();
   return p;
 }
-void* operator new(size_t sz, std::align_val_t al, const std::nothrow_t&) noexcept { return acct::alloc(sz, size_t(al)); }
-void* operator new[](size_t sz, std::align_val_t al, const std::nothrow_t&) noexcept { return acct::alloc(sz, size_t(al)); }
-void operator delete(void* p) noexcept { acct::dealloc(p); }
-void operator delete[](void* p) noexcept { acct::dealloc(p); }
-void operator delete(void* p, size_t) noexcept { acct::dealloc(p); }
-void operator delete[](void* p, size_t) noexcept { acct::dealloc(p); }
-void operator delete(void* p, std::align_val_t) noexcept { acct::dealloc(p); }
-void operator delete[](void* p, std::align_val_t) noexcept { acct::dealloc(p); }
-void operator delete(void* p, size_t, std::align_val_t) noexcept { acct::dealloc(p); }
-void operator delete[](void* p, size_t, std::align_val_t) noexcept { acct::dealloc(p); }
-void operator delete(void* p, const std::nothrow_t&) noexcept { acct::dealloc(p); }
-void operator delete[](void* p, const std::nothrow_t&) noexcept { acct::dealloc(p); }
-void operator delete(void* p, std::align_val_t, const std::nothrow_t&) noexcept { acct::dealloc(p); }
-void operator delete[](void* p, std::align_val_t, const std::nothrow_t&) noexcept { acct::dealloc(p); }
+void* operator new(size_t sz, std::align_val_t al, const std::nothrow_t&) noexcept { return vfacct::alloc(sz, size_t(al)); }
+void* operator new[](size_t sz, std::align_val_t al, const std::nothrow_t&) noexcept { return vfacct::alloc(sz, size_t(al)); }
+void operator delete(void* p) noexcept { vfacct::dealloc(p); }
+void operator delete[](void* p) noexcept { vfacct::dealloc(p); }
+void operator delete(void* p, size_t) noexcept { vfacct::dealloc(p); }
+void operator delete[](void* p, size_t) noexcept { vfacct::dealloc(p); }
+void operator delete(void* p, std::align_val_t) noexcept { vfacct::dealloc(p); }
+void operator delete[](void* p, std::align_val_t) noexcept { vfacct::dealloc(p); }
+void operator delete(void* p, size_t, std::align_val_t) noexcept { vfacct::dealloc(p); }
+void operator delete[](void* p, size_t, std::align_val_t) noexcept { vfacct::dealloc(p); }
+void operator delete(void* p, const std::nothrow_t&) noexcept { vfacct::dealloc(p); }
+void operator delete[](void* p, const std::nothrow_t&) noexcept { vfacct::dealloc(p); }
+void operator delete(void* p, std::align_val_t, const std::nothrow_t&) noexcept { vfacct::dealloc(p); }
+void operator delete[](void* p, std::align_val_t, const std::nothrow_t&) noexcept { vfacct::dealloc(p); }
 
 namespace {
 
@@ -846,10 +846,11 @@ void run_episode(uint64_t seed, uint64_t episode, int sub) {
   // ---- construct
   g_constructed.store(0, std::memory_order_relaxed);
   g_destroyed.store(0, std::memory_order_relaxed);
-  acct::begin(D::watched_sizes());
+  vfacct::begin(D::watched_sizes());
   D d;
   d.construct(cfg.initial);
-  std::vector<std::vector<Ev>> logs(size_t(T), std::vector<Ev>());
+  std::vector<std::vector<Ev>> logs;
+  logs.resize(static_cast<size_t>(T));
   for (auto& l : logs) l.reserve(size_t(cfg.ops_per_thread) + size_t(K) + 8);
   std::unordered_map<uint64_t, int> kid_of_key;
   for (int i = 0; i < U; ++i) kid_of_key[cfg.key_of(i)] = i;
@@ -933,7 +934,8 @@ void run_episode(uint64_t seed, uint64_t episode, int sub) {
   if (cfg.cpus) vf::pin_cpus(0);
 
   // ---- oracle over the history, per key
-  std::vector<std::vector<Ev>> by_key(size_t(U), std::vector<Ev>());
+  std::vector<std::vector<Ev>> by_key;
+  by_key.resize(static_cast<size_t>(U));
   uint64_t nev = 0;
   for (auto& l : logs)
     for (auto& e : l) { by_key[e.kid].push_back(e); ++nev; }
@@ -1133,7 +1135,7 @@ void run_episode(uint64_t seed, uint64_t episode, int sub) {
 
   // ---- growth bookkeeping
   size_t chain = d.chain_len();
-  uint64_t node_allocs = D::node_size() ? acct::allocs_of(D::node_size()) : 0;
+  uint64_t node_allocs = D::node_size() ? vfacct::allocs_of(D::node_size()) : 0;
   uint64_t grown = chain - 1;
   uint64_t losers = node_allocs > grown ? node_allocs - grown : 0;
   if (!D::is_fixed()) {
@@ -1147,7 +1149,7 @@ void run_episode(uint64_t seed, uint64_t episode, int sub) {
   // ---- destroy, balances
   g_phase.store("destroy", std::memory_order_relaxed);
   d.destroy();
-  acct::end();
+  vfacct::end();
   vf::watchdog().arm(false);
   if (!vf::failed()) {
     uint64_t c = g_constructed.load(std::memory_order_relaxed), de = g_destroyed.load(std::memory_order_relaxed);
@@ -1156,12 +1158,12 @@ void run_episode(uint64_t seed, uint64_t episode, int sub) {
              vf::fmt("%lu elements constructed in the table, %lu destroyed after the table was destroyed", (unsigned long)c, (unsigned long)de), {}, t0);
     }
     std::string leak;
-    for (int i = 0; i < acct::g.nsizes.load(); ++i) {
-      uint64_t a = acct::g.allocs[i].load(), f = acct::g.frees[i].load();
+    for (int i = 0; i < vfacct::g.nsizes.load(); ++i) {
+      uint64_t a = vfacct::g.allocs[i].load(), f = vfacct::g.frees[i].load();
       VF_COUNT_N("obs:table_blocks_allocated", a);
-      if (a != f) leak += vf::fmt(" size=%zu allocated=%lu freed=%lu;", acct::g.sizes[i].load(), (unsigned long)a, (unsigned long)f);
+      if (a != f) leak += vf::fmt(" size=%zu allocated=%lu freed=%lu;", vfacct::g.sizes[i].load(), (unsigned long)a, (unsigned long)f);
     }
-    if (!leak.empty() && acct::g.overflow.load() == 0) {
+    if (!leak.empty() && vfacct::g.overflow.load() == 0) {
       report(cfg, "table-memory-imbalance", "operator new/delete of table nodes / buffers not balanced after destruction:" + leak, {}, t0);
     }
   }
